@@ -67,6 +67,11 @@ def _one_hierarchy(ev, types, seqs, Ps, child, has_seq, idoff, ask):
 
             return E.outcome(fn, enc)
 
+        # a share of the hierarchies is first asked the STRICT ancestor question (include_self=False) on the parent
+        # object itself -- before anything else touches that (constructor-cached, hence shared) Parent
+        no_self = []
+        if (len(root) + len(child[0])) % 2 == 0:
+            no_self = [[t, bool(c.parent.has_ancestor_of_type(t, include_self=False))] for t in ask]
         by_type = [[t, val(lambda t=t: c.lift_over_to_first_ancestor_of_type(t))] for t in ask]
         by_seq = []
         if has_seq:
@@ -80,7 +85,22 @@ def _one_hierarchy(ev, types, seqs, Ps, child, has_seq, idoff, ask):
             by_seq.append([-1, val(lambda: c.lift_over_to_sequence(other))])
         has_t = [[t, bool(c.has_ancestor_of_type(t))] for t in ask]
         one = val(lambda: c.parent.lift_child_location_to_parent())
-        ev.append(["lift", types, list(root), has_seq, [list(p) for p in Ps], list(child), by_type, by_seq, has_t, one, idoff])
+        ev.append(["lift", types, list(root), has_seq, [list(p) for p in Ps], list(child), by_type, by_seq, has_t, one, idoff,
+                   no_self])
+        # the interval-level wrapper (AbstractInterval.lift_over_to_first_ancestor_of_type) of a feature that owns the
+        # same location: same answers, same refusals
+        if len(root) % 3 == 0:
+            try:
+                from inscripta.biocantor.gene.feature import FeatureInterval
+                from inscripta.biocantor.location.strand import Strand
+
+                ft = FeatureInterval([b[0] for b in child[0]], [b[1] for b in child[0]], Strand.from_symbol(child[1]),
+                                     parent_or_seq_chunk_parent=par)
+            except Exception:
+                ft = None
+            if ft is not None and E.loc(ft.chunk_relative_location) == E.loc(c):
+                ev.append(["liftw", types, list(root), has_seq, [list(p) for p in Ps], list(child),
+                           [[t, val(lambda t=t: ft.lift_over_to_first_ancestor_of_type(t))] for t in ask], idoff])
 
 
 def _blocks_of(positions, st):
